@@ -288,6 +288,9 @@ def run(ctx):
     # of a save/restore pair (shared with C10 D5)
     _il.import_module("rules.c10").emitted_branch_pairs(db, rep, "D11-NO-STALE-RESTORE")
     two_operand_dest_defined(db, rep)
+    # an accumulator that is not zeroed starts from what an earlier call left in its register (shared rule, rules/c06.py)
+    _il.import_module("rules.c06").accumulator_walks_complete(db, rep, "D13-ACCUMULATOR-WALKS")
+    two_operand_source_preserved(db, rep)
 
 
 def _codeptr_skips(f):
@@ -595,4 +598,107 @@ def two_operand_dest_defined(db, rep, rule="D12-DEST-DEFINED"):
                        bad[0].line if bad else "?"), line=bad[0].line if bad else None)
     if n < 150 or judged < 200:
         raise AnalysisBroken("only %d two-operand rule functions / %d read operands judged" % (n, judged))
+    return n
+
+
+def two_operand_source_preserved(db, rep, rule="D14-SOURCE-PRESERVED"):
+    """The counterpart of D12.  The register of an Orc source operand is the register of a VARIABLE: unless the allocator chained
+    the destination onto it (src == dest: the source dies at this instruction) the variable is read again later.  A two-operand
+    rule must therefore not emit an instruction that WRITES a source's register on a path where that register is not known to be
+    the destination's - a shift `in place` on the source, done to save a scratch copy, leaves a later instruction reading
+    `src << 16` - wrong only in programs that use the value twice, under the flag subsets that select this rule."""
+    import re
+    from facts import init_rows
+    rows = init_rows(db.tu("orcx86insn").global_("orc_x86_opcodes"))
+    n = judged = 0
+    for tub in ("orcrules-sse", "orcrules-mmx"):
+        tu = db.tu(tub)
+        for f in tu.main_functions():
+            if "_rule_" not in f.name:
+                continue
+            kind = {}
+            for vd in f.walk():
+                if vd.k == "VarDecl" and vd.c and vd.c[0] is not None:
+                    t = unparse(vd.c[0])
+                    if "dest_args" in t and t.rstrip().endswith(".alloc"):
+                        kind[vd.name] = "dest"
+                    elif "src_args" in t and t.rstrip().endswith(".alloc"):
+                        kind[vd.name] = "src"
+            srcs = [k for k, v in kind.items() if v == "src"]
+            dests = [k for k, v in kind.items() if v == "dest"]
+            if not srcs or not dests:
+                continue
+            emits = [c for c in {c.id: c for c in f.calls()}.values() if c.name in ("orc_x86_emit_cpuinsn_size", "orc_x86_emit_cpuinsn_imm") and len(c.args()) > 4]
+            if not emits:
+                continue
+            n += 1
+            bad = None
+            from flow import reaching_defs
+            for c in emits:
+                d = strip_casts(c.args()[4])
+                if d is None or d.k != "DeclRefExpr":
+                    continue
+                if kind.get(d.name) != "src":
+                    # a scratch name that was made an alias of a source register on some path (`tmp = src;`)
+                    if d.name in kind:
+                        continue
+                    al = [df for df in reaching_defs(f, d.name, c) if strip_casts(df.c[1] if df.k == "BinaryOperator" else (df.c[0] if df.c else None)) is not None and
+                          strip_casts(df.c[1] if df.k == "BinaryOperator" else df.c[0]).k == "DeclRefExpr" and
+                          kind.get(strip_casts(df.c[1] if df.k == "BinaryOperator" else df.c[0]).name) == "src"]
+                    if not al:
+                        continue
+                    judged += 1
+                    srcname = strip_casts(al[0].c[1] if al[0].k == "BinaryOperator" else al[0].c[0]).name
+                    same_at_def = False
+                    for cd in Facts(f).conds(al[0]):
+                        if cd[0] == "switch":
+                            continue
+                        e, pol = atom(cd[0], cd[1])
+                        if e is not None and e.k == "BinaryOperator" and e.op in ("==", "!="):
+                            names = {x.name for x in (strip_casts(e.c[0]), strip_casts(e.c[1])) if x is not None and x.k == "DeclRefExpr"}
+                            if srcname in names and names & set(dests) and ((e.op == "==") == pol):
+                                same_at_def = True
+                    if not same_at_def and bad is None:
+                        v_ = strip_casts(c.args()[1]).v
+                        bad = (c, "%s (= %s, line %s)" % (d.name, srcname, al[0].line), rows[v_]["name"] if v_ is not None and 0 <= v_ < len(rows) else None)
+                    continue
+                judged += 1
+                # known to be the destination's register here?  (must-fact src == dest, any spelling)
+                same = False
+                for cd in Facts(f).conds(c):
+                    if cd[0] == "switch":
+                        continue
+                    e, pol = atom(cd[0], cd[1])
+                    if e is not None and e.k == "BinaryOperator" and e.op in ("==", "!="):
+                        l, r = strip_casts(e.c[0]), strip_casts(e.c[1])
+                        names = {x.name for x in (l, r) if x is not None and x.k == "DeclRefExpr"}
+                        if d.name in names and names & set(dests) and ((e.op == "==") == pol):
+                            same = True
+                    # a register constant test (src == X86_XMM0) followed by a restore is the save/restore idiom of convsssql: the
+                    # write is the RESTORE of the saved value
+                v = strip_casts(c.args()[1]).v
+                rn = rows[v]["name"] if v is not None and 0 <= v < len(rows) else None
+                s0 = strip_casts(c.args()[3])
+                restore = rn in ("movdqa", "movq") and s0 is not None and s0.k == "DeclRefExpr" and kind.get(s0.name) is None and \
+                    any(x.id != c.id and x.name in ("orc_x86_emit_cpuinsn_size",) and strip_casts(x.args()[3]) is not None and strip_casts(x.args()[3]).k == "DeclRefExpr"
+                        and strip_casts(x.args()[3]).name == d.name and strip_casts(x.args()[4]) is not None and strip_casts(x.args()[4]).k == "DeclRefExpr"
+                        and strip_casts(x.args()[4]).name == s0.name for x in emits)
+                # `pxor K, src ... pxor K, src`: the sign-flip is undone by the same involution before the rule ends (an even number of
+                # identical xors in one straight line) - the register holds the source again when the rule returns
+                undone = False
+                if rn == "pxor" and s0 is not None:
+                    twins = [x for x in emits if x.name == c.name and strip_casts(x.args()[1]).v == v and unparse(strip_casts(x.args()[3])) == unparse(s0)
+                             and strip_casts(x.args()[4]) is not None and strip_casts(x.args()[4]).k == "DeclRefExpr" and strip_casts(x.args()[4]).name == d.name]
+                    pos = [f.pos(x) for x in twins]
+                    undone = len(twins) % 2 == 0 and all(p_ is not None for p_ in pos) and len({p_[0] for p_ in pos}) == 1
+                if not same and not restore and not undone and bad is None:
+                    bad = (c, d.name, rn)
+            rep.saw(f)
+            rep.check(bad is None, rule, where(f), f.name, "no instruction writes the register of a source that may still be live",
+                      "%s emits `%s` with the source register `%s` as its destination (line %s) on a path where that register is not known to be the "
+                      "destination's: the source variable is still live there (the allocator shares the register only when the source dies), and a later "
+                      "instruction reads the modified value" % (f.name, bad[2] if bad else "", bad[1] if bad else "", bad[0].line if bad else "?"),
+                      line=bad[0].line if bad else None)
+    if n < 100:
+        raise AnalysisBroken("only %d two-operand rule functions with named source and destination registers" % n)
     return n
